@@ -256,7 +256,10 @@ def run_static(ctx, tab, cases, objdir):
                     compare(case, obs[1][0], obs[1][1], obs[1][2], obs[1][3], tab, want_img=case["mimg"], want_rel=case["mrel"]) is None:
                 explained = "image"
         if explained:
-            for dv in fired:
+            # an indeterminate read inside the compiler comes from AnonNoMem alone; the other deviations that fired
+            # on the way are not what made the outcome unpredictable
+            blame = [d for d in fired if d == "AnonNoMem"] if explained == "undef" else fired
+            for dv in blame or fired:
                 ctx.violation("dev:%s:%s" % (dv, explained), "%s: %s" % (render_decl(tab, case, "x"), why), info)
         else:
             kind = why.split(":")[0].split(" ")[0]
